@@ -279,6 +279,122 @@ def _fault_one(args):
     return dict(violations=_dedup(out), counts=counts, outcome=str((fired, w.run_exception is None, len(calls))))
 
 
+# ---- live dispatch loop: raw-data, sports-data, custom-event, market-book callbacks ------------------
+LIVE_CALLBACKS = ("process_raw_data", "check_sports_data", "process_sports_data", "custom_event", "check_market_book", "process_market_book", "process_new_market")
+
+
+def _live_fault_one(args):
+    cb, idx, exc, target = args
+    from mc import livex
+    from flumine.events import events
+    from flumine.exceptions import FlumineException
+
+    class Boom(FlumineException):
+        pass
+
+    w = livex.LiveWorld([], strategies=("A", "B", "C"), markets=["1.100000001"])
+    w.start()
+    out = []
+    counts = {"clause:C13.b": 0, "clause:C13.d": 0, "live_faults_fired": 0}
+    case = dict(live_fault=[cb, idx, exc, target])
+    key = lambda pred: (cb, exc, pred)
+    try:
+        fw = w.framework
+        seen = {s.name: [] for s in w.strategies}
+        n_calls = {"n": 0}
+        fired = {"f": False}
+
+        def maybe(name, which):
+            if name == w.strategies[target].name and which == cb:
+                k = n_calls["n"]
+                n_calls["n"] += 1
+                if k == idx:
+                    fired["f"] = True
+                    raise (Boom("injected") if exc == "flumine" else ValueError("injected"))
+
+        for st in w.strategies:
+            def raw(clk, pt, datum, st=st):
+                seen[st.name].append(("raw", pt, datum.get("id", datum.get("marketId"))))
+                maybe(st.name, "process_raw_data")
+
+            def chk_sd(market, sd, st=st):
+                maybe(st.name, "check_sports_data")
+                return True
+
+            def sd_(market, sd, st=st):
+                seen[st.name].append(("sports", sd.publish_time))
+                maybe(st.name, "process_sports_data")
+
+            def chk_mb(market, mb, st=st):
+                maybe(st.name, "check_market_book")
+                return True
+
+            def pmb(market, mb, st=st):
+                seen[st.name].append(("book", mb.publish_time_epoch))
+                maybe(st.name, "process_market_book")
+
+            def pnm(market, mb, st=st):
+                seen[st.name].append(("new", market.market_id))
+                maybe(st.name, "process_new_market")
+
+            st.process_raw_data, st.check_sports_data, st.process_sports_data = raw, chk_sd, sd_
+            st.check_market_book, st.process_market_book, st.process_new_market = chk_mb, pmb, pnm
+        sid = w.strategies[0].streams[0].stream_id
+        customs = []
+        expected = {"raw": [], "sports": [], "book": [], "new": []}
+
+        def custom_cb(flumine, event):
+            customs.append(event.event)
+            if cb == "custom_event":
+                k = n_calls["n"]
+                n_calls["n"] += 1
+                if k == idx:
+                    fired["f"] = True
+                    raise (Boom("injected") if exc == "flumine" else ValueError("injected"))
+
+        class SD:
+            def __init__(self, pt):
+                self.market_id = "1.100000001"
+                self.streaming_unique_id = sid
+                self.publish_time = pt
+
+        for n in range(3):
+            w.clock_ms += 1000
+            w.set_clock()
+            pt = w.clock_ms
+            data = [{"id": "1.100000001", "rc": []}, {"marketId": "1.55", "eventId": "9"}, {"id": "1.10000000%d" % (2 + n), "marketDefinition": {"status": "OPEN", "eventId": "1"}}]
+            w.dispatch(events.RawDataEvent((sid, "clk", pt, data)))
+            expected["raw"] += [("raw", pt, d.get("id", d.get("marketId"))) for d in data]
+            w.dispatch(events.SportsDataEvent([SD(pt)]))
+            expected["sports"].append(("sports", pt))
+            w.dispatch(events.CustomEvent(n, custom_cb))
+            w.books["1.10000000%d" % (7 + n)] = w._make_book("1.10000000%d" % (7 + n))
+            w.dispatch(w._book_event("1.10000000%d" % (7 + n)))  # a new market: process_new_market + book callbacks
+            expected["new"].append(("new", "1.10000000%d" % (7 + n)))
+            expected["book"].append(("book", pt))
+            w.dispatch(w._book_event("1.100000001"))
+            expected["book"].append(("book", pt))
+        if fired["f"]:
+            counts["live_faults_fired"] += 1
+        counts["clause:C13.d"] += 1
+        if w.handler_exceptions:
+            out.append(core.v("C13.d", key("exception escaped the dispatch loop"), w.handler_exceptions[0][-300:], case))
+        if customs != [0, 1, 2]:
+            out.append(core.v("C13.b", key("custom events"), "custom event callbacks ran for %s" % customs, case))
+        for i, st in enumerate(w.strategies):
+            if i == target:
+                continue
+            counts["clause:C13.b"] += 1
+            for kind in ("raw", "sports", "book", "new"):
+                got = [x for x in seen[st.name] if x[0] == kind]
+                if got != expected[kind]:
+                    pred = "missing" if len(got) < len(expected[kind]) else ("duplicate" if len(got) > len(expected[kind]) else "order")
+                    out.append(core.v("C13.b", key("delivery %s %s" % (kind, pred)), "strategy %s received %d of %d %s callbacks" % (st.name, len(got), len(expected[kind]), kind), case))
+    finally:
+        w.stop()
+    return dict(violations=_dedup(out), counts=counts, outcome=str((cb, fired["f"], len(out))))
+
+
 def _dedup(vs, per_key=1):
     seen, out = {}, []
     for d in vs:
@@ -326,7 +442,18 @@ def run(tier):
         rep.merge_counts(r["counts"])
         rep.outcomes.add(r["outcome"])
     runs += len(fj)
-    rep.need("pairs_both_filled", "pairs_same_price_competition", "faults_fired")
+    lf = [(None, 0, "none", 0)]
+    for cbk in LIVE_CALLBACKS:
+        for idx in range(9 if cbk == "process_raw_data" else (6 if "market_book" in cbk else 3)):
+            for exc in ("value", "flumine"):
+                for target in (0, 1):
+                    lf.append((cbk, idx, exc, target))
+    for r in core.pmap(_live_fault_one, lf):
+        rep.add_violations(r["violations"])
+        rep.merge_counts(r["counts"])
+        rep.outcomes.add(r["outcome"])
+    runs += len(lf)
+    rep.need("pairs_both_filled", "pairs_same_price_competition", "faults_fired", "live_faults_fired")
     rep.sample({"fault_injection": fj[len(fj) // 2]})
     rep.states = runs
     rep.transitions = runs
@@ -337,7 +464,7 @@ def run(tier):
     rep.rule = "all ordered pairs of %d strategy programs (first placement from %d templates, optional second action at update 2: cancel/partial cancel/replace/another placement) x 3 market histories x both registration orders (x 2 clients for a subset); fault injection at every invocation index of check_market_book / process_market_book / process_orders / process_new_market of either strategy and of a middleware, ValueError and FlumineException; distinct_nontrivial = distinct ledgers / fault outcomes" % (n, len(P_MENU))
     rep.assumptions = [
         "bet ids and order/trade ids are excluded from the ledger (a shared counter / uuid)",
-        "process_closed_market is not in the statement's list of contained callbacks and is not injected; sports-data, raw-data and custom-event callbacks belong to the live dispatch loop (E2)",
+        "process_closed_market is not in the statement's list of contained callbacks and is not injected; sports-data, raw-data, custom-event, new-market and market-book callbacks of the live dispatch loop are injected through the real Flumine.run() loop",
         "simulated_strategy_isolation=True",
     ]
     return rep.finish()
@@ -345,6 +472,12 @@ def run(tier):
 
 def replay(rep):
     c = rep["case"]
+    if "live_fault" in c:
+        a = c["live_fault"]
+        r = _live_fault_one((a[0], a[1], a[2], a[3]))
+        for d in r["violations"]:
+            print(d["key"], d["detail"])
+        return 1 if r["violations"] else 0
     if "fault" in c:
         r = _fault_one((c["history"], c["target"], tuple(c["fault"]) if c["fault"] else None))
         for d in r["violations"]:
